@@ -34,7 +34,7 @@ finally:
 tests = re.findall(r'^test result: .*$', conf, re.M)
 meta = {
     'breaks_property': P,
-    'source': 'independent sub-agent given only the property text and a scratch worktree (wave 1)' ,
+    'source': 'independent sub-agent given only the property text and a scratch worktree',
     'needs_to_manifest': needs,
     'confirmed': {
         'how': 'tools/confirm_mutant.sh in a scratch worktree: patch applies, cargo build, cargo test --offline --lib (3 always-timing-out baseline tests skipped), demo with / without the change',
